@@ -116,7 +116,7 @@ def build(stack, seed_override="keep"):
         ds = TorchWrapper(PlainTorchDataset(r["n"], fail_at=r.get("fail_at") or ()), mode="x class")
     else:
         ds = RootDataset(r["kind"], r["n"], clobber=clob, ctx_tags=bool(r.get("ctx_tags")), ds_id=r.get("ds_id", 0),
-                         fail_at=r.get("fail_at") or ())
+                         fail_at=r.get("fail_at") or (), lazy_fail_at=r.get("lazy_fail_at") or ())
     for layer in stack.get("below", []):
         ds = apply_layer(ds, layer)
     if stack.get("seeded"):
